@@ -1,6 +1,7 @@
 #!/bin/bash
 # benign_regress.sh: applies every behaviour-preserving patch in /verif/benign to a scratch worktree of /repo's HEAD and
 # runs the checks of the code it touches (quick tier) against that worktree; NO check may alarm or break.
+# FAST=1 leaves C10 and C18 (the two slowest) out of the list for service patches.
 cd "$(dirname "$0")/.."
 wt=$(mktemp -d /tmp/verif-benignwt-XXXXXX); rmdir "$wt"
 git -C /repo worktree add -q --detach "$wt" HEAD || exit 2
@@ -10,7 +11,7 @@ for d in benign/${1:-}*.diff; do
   n=$(basename $d .diff)
   case $n in B8*|B11*|R-C15z|R-C16z|R-C19y|R-C15x) checks="C15 C16 C19 C10";; R-C16x) checks="C16 C15 C07 C03";; B12*|R-C02z|R-C01y|R-C02x) checks="C01 C02 C03 C04 C06 C20";;
     R-C03y|R-C08y) checks="C03 C08 C07";;
-    R-C07z|R-C07x) checks="C07 C08 C03 C20 C02";; R-C17z) checks="C17 C03";; R-C20z|R-C20x) checks="C20";; *) checks="C04 C05 C06 C09 C10 C11 C12 C13 C14 C18";; esac
+    R-C07z|R-C07x) checks="C07 C08 C03 C20 C02";; R-C17z) checks="C17 C03";; R-C20z|R-C20x) checks="C20";; *) checks="C04 C05 C06 C09 C10 C11 C12 C13 C14 C18"; [ -n "$FAST" ] && checks="C04 C05 C06 C09 C11 C12 C13 C14";; esac
   git -C "$wt" apply "$PWD/$d" || { echo "$n -> patch does not apply"; fail=1; continue; }
   res=$(NO_BASELINE=$([ -z "$BASELINE" ] && echo 1) bin/trymutant_wt.sh "$wt" $checks 2>&1 | awk '{print $1":"$2}' | tr '\n' ' ')
   git -C "$wt" checkout -q -- . ; git -C "$wt" clean -fdq
